@@ -49,6 +49,9 @@ func NewSolver(timeoutMs int) *Solver {
 		liveSolver.kill()
 	}
 	cmd := exec.Command(solverBin(), "-in", fmt.Sprintf("-t:%d", timeoutMs))
+	// z3 grows and shrinks its heap on every query; glibc's default trimming turns that into ~50k page faults/s per
+	// process (more kernel than user time with 16 workers). Keep the heap top instead.
+	cmd.Env = append(os.Environ(), "MALLOC_TRIM_THRESHOLD_=2000000000", "MALLOC_TOP_PAD_=134217728", "MALLOC_MMAP_THRESHOLD_=1073741824")
 	// blocking pipes: a query is a synchronous round trip, the runtime poller only adds latency
 	var p1, p2 [2]int
 	if err := syscall.Pipe(p1[:]); err != nil {
